@@ -714,7 +714,7 @@ func tokenize(px *pathCtx, parts []ropePart) ([]strToken, bool) {
 			for i < len(s) {
 				c := s[i]
 				isDigit := c >= '0' && c <= '9'
-				isSign := c == '-' && !prevNum && i+1 < len(s) && s[i+1] >= '0' && s[i+1] <= '9'
+				isSign := c == '-' && !prevNum && i+1 < len(s) && s[i+1] >= '1' && s[i+1] <= '9'
 				if c == '-' && !prevNum && i+1 == len(s) && pi+1 < len(parts) && parts[pi+1].kind == rkNum {
 					return nil, false
 				}
@@ -727,6 +727,17 @@ func tokenize(px *pathCtx, parts []ropePart) ([]strToken, bool) {
 						return nil, false
 					}
 					lit := s[i:j]
+					digits := lit
+					if digits[0] == '-' {
+						digits = digits[1:]
+					}
+					if len(digits) > 1 && digits[0] == '0' {
+						// not a canonical decimal rendering: plain text
+						chunk.WriteString(lit)
+						prevNum = true
+						i = j
+						continue
+					}
 					flush()
 					v, err := strconv.ParseInt(lit, 10, 64)
 					tk := strToken{text: lit}
